@@ -251,6 +251,26 @@ func VerifC17TTLWrites() {
 			zzverif.Assert(zzverif.HasPrefix(name, []byte(vPrefix+"/events/")), "only records of keys under <prefix>/events/ are written with a TTL ("+step+")")
 			zzverif.Cover("ttl-record")
 		}
+		// the index record and the newest version of the key expire together (an engine with native
+		// TTL removes each record on its own: a version that goes while its index record stays leaves
+		// a key that reads as absent and can never be created again)
+		var idxTTL, newestTTL int64
+		var newest uint64
+		hasIdx := false
+		for _, e := range w.s.Ents {
+			name, rev, err := w.b.coder.Decode(e.Key)
+			if err != nil || !zzverif.BytesEq(name, key) {
+				continue
+			}
+			if rev == 0 {
+				idxTTL, hasIdx = e.TTL, true
+			} else if rev > newest {
+				newest, newestTTL = rev, e.TTL
+			}
+		}
+		if hasIdx && newest != 0 {
+			zzverif.Assert(idxTTL == newestTTL, "the index record and the newest version of a key carry the same TTL ("+step+")")
+		}
 	}
 	c, err := w.b.Create(vCtx(), &proto.CreateRequest{Key: key, Value: []byte("c"), Lease: zzverif.I64("lease0")})
 	zzverif.Assert(err == nil && c.Succeeded, "create")
@@ -270,6 +290,14 @@ func VerifC17TTLWrites() {
 		zzverif.Assert(err == nil && d.Succeeded, "delete")
 		check("delete")
 		zzverif.WaitIdle()
+		if zzverif.Choose("again", 2) == 1 {
+			// created again over the deletion mark (no compaction in between)
+			c, err := w.b.Create(vCtx(), &proto.CreateRequest{Key: key, Value: []byte("d"), Lease: zzverif.I64("leaseA")})
+			zzverif.Assert(err == nil && c.Succeeded, "create again")
+			check("create over a deletion mark")
+			zzverif.WaitIdle()
+			zzverif.Cover("created-again")
+		}
 	}
 	zzverif.Cover("done")
 }
